@@ -362,6 +362,18 @@ package dsl
 // alias is looked through (what the generators rely on when they name the target of an `as` conversion).
 //@ spec func refToPrimitive(t Type) bool = typeof(t) == *SimpleType && t.(*SimpleType) != nil && typeof(t.(*SimpleType).ResolvedDefinition) == PrimitiveDefinition
 //@ spec func refToAlias(t Type) bool = typeof(t) == *SimpleType && t.(*SimpleType) != nil && typeof(t.(*SimpleType).ResolvedDefinition) == *NamedType && t.(*SimpleType).ResolvedDefinition.(*NamedType) != nil
+// C03 / C04: a generator that wants a union over underlying types builds its own copy. The model is shared by the
+// generators of one run (C++ first, then Python, JSON, MATLAB) and the schema each embeds is computed from it: a helper
+// that resolves the aliases *in* the model's union cases makes the later generators embed a different schema.
+//@ func ToUnionOfUnderlyingTypes
+//@   property C03,C04,C02
+// (the second precondition is a fact of the memory model - a pointer stored in the heap at the time of the call is
+// allocated - that the engine does not supply under a quantifier; callers owe it as an unclaimed obligation)
+//@   requires t != nil
+//@   requires forall k in 0..len(t.Cases) :: alive(t.Cases[k])
+//@   invariant 0: forall k in 0..len(t.Cases) :: (t.Cases[k] == old(t.Cases[k]) && !fresh(t.Cases[k]) && (t.Cases[k] != nil ==> t.Cases[k].Type == old(t.Cases[k].Type)))
+//@   ensures the_cases_of_the_model_are_left_alone: forall k in 0..len(t.Cases) :: (t.Cases[k] == old(t.Cases[k]) && (t.Cases[k] != nil ==> t.Cases[k].Type == old(t.Cases[k].Type)))
+//@   ensures the_result_is_a_new_object: result != nil && fresh(result)
 //@ func GetPrimitiveType
 //@   pure
 //@   stable
@@ -535,6 +547,12 @@ package dsl
 //@ func GetProtocolSchemaString
 //@   pure
 //@   reads-model
+// C15 / C04: the text is computed from the protocol it is asked about, every time. The model and each previous version
+// have a protocol of the same qualified name; a text remembered under that name would hand the schema of one version
+// to the readers of another, which then accept foreign streams as their own.
+//@   property C15,C04,C05
+//@   ensures the_text_is_the_marshalled_schema_of_this_protocol: calls(GetProtocolSchema) == 1 && lastArg(GetProtocolSchema, 0) == protocol && calls("encoding/json.Marshal") == 1 && typeof(lastArg("encoding/json.Marshal", 0)) == *ProtocolSchema && lastArg("encoding/json.Marshal", 0).(*ProtocolSchema) == lastResult(GetProtocolSchema)
+//@ observe-args dsl.GetProtocolSchema
 
 //@ func (*GeneralizedType).ToScalar
 //@   pure
@@ -607,6 +625,12 @@ package dsl
 //@   pure
 //@   stable
 //@ spec func commonOf() Type = lastResult(GetCommonType).r0
+// C09 / C19 (the type of `!switch` cases, of binary operands). (A clause "two different types have a common type only when
+// both are primitive" was written for seeded change C09-k and could not be discharged on the unchanged code - the link
+// between the spec-side application of the pure GetPrimitiveType and the call in the body was not established; withdrawn.)
+//@ func GetCommonType
+//@   property C09,C19
+//@   ensures the_same_type_is_its_own_common_type: a == b ==> result1 == nil && result0 == a
 // Negation is an arithmetic operator: like the binary operators it is defined for integer, floating-point and complex
 // operands only (`-s` on a string, a vector, a bool or a union is an ill-typed computed field: the C++ does not
 // compile, the Python raises TypeError).
@@ -666,6 +690,11 @@ package dsl
 //@   ensures a_shallow_instantiation_leaves_references_alone: typeof(node) == *SimpleType && shallow ==> result == node
 //@   ensures a_reference_to_a_type_parameter_becomes_its_argument: typeof(node) == *SimpleType && node.(*SimpleType) != nil && !shallow && typeof(old(node.(*SimpleType).ResolvedDefinition)) == *GenericTypeParameter ==> (forall k in 0..old(len(meta.TypeParameters)) :: (old(meta.TypeParameters[k]) == old(node.(*SimpleType).ResolvedDefinition).(*GenericTypeParameter) && (forall j in 0..k :: old(meta.TypeParameters[j]) != old(node.(*SimpleType).ResolvedDefinition).(*GenericTypeParameter)) ==> result == old(typeArguments[k])))
 //@   ensures a_definition_object_not_yet_rewritten_is_rewritten: typeof(node) == *SimpleType && node.(*SimpleType) != nil && !shallow && typeof(old(node.(*SimpleType).ResolvedDefinition)) != *GenericTypeParameter && !old(node.(*SimpleType).ResolvedDefinition in rewrittenDefinitions) ==> called("dsl.(*Rewriter).Rewrite")
+// C10 (prompt termination): a referenced definition that has been looked at is remembered whether or not anything was
+// substituted in it - otherwise a definition that does not mention the type parameters is walked again for every
+// reference to it, and a chain of records with two references per level takes 2^depth steps.
+//@   property C10
+//@   ensures a_definition_that_was_looked_at_is_remembered: typeof(node) == *SimpleType && node.(*SimpleType) != nil && !shallow && typeof(old(node.(*SimpleType).ResolvedDefinition)) != *GenericTypeParameter ==> old(node.(*SimpleType).ResolvedDefinition) in rewrittenDefinitions
 // C06: before two versions of a generic definition are compared the new one is re-expressed in the old one's type
 // parameters - throughout (fields and aliased types refer to parameters by identity), not only in its header.
 //@ observe-args dsl.MakeGenericType
@@ -757,7 +786,7 @@ package dsl
 // Cycle detection / dependency sort: a type reference always descends into its type arguments (a cycle can close
 // through an argument of an imported generic), whatever namespace the referenced definition lives in.
 //@ func topologicalSortTypes@emits:"there is a reference cycle, which is not supported, within namespace '%s': %s"
-//@   property C09,C13
+//@   property C09,C13,C08,C10
 //@   ensures type_references_always_descend: typeof(node) == *SimpleType && node.(*SimpleType) != nil ==> called("dsl.(VisitorWithContext[Node]).VisitChildren")
 //@   ensures fields_always_descend: typeof(node) == *Field && node.(*Field) != nil ==> called("dsl.(VisitorWithContext[Node]).VisitChildren")
 // "cyclic type reference": a definition that is met again while it is still on the path being explored (its entry in
@@ -858,6 +887,14 @@ package dsl
 // A real operand that becomes complex is first converted to the floating-point type of the same precision as the
 // complex target: float for complexfloat, double for complexdouble (a narrower intermediate type would lose digits
 // that the target can hold).
+// C19: the type checker makes every promotion explicit - an operand whose type is not the type the operation is carried
+// out in is wrapped in a conversion to that type, whatever the two types are. The printers rely on it: none of the target
+// languages promotes the way yardl does (numpy scalars wrap in their own width, C++ converts int32 * uint32 to unsigned).
+//@ observe-args dsl.adjustConversion
+//@ func insertConversion
+//@   property C19
+//@   ensures an_operand_of_another_type_is_converted_to_the_target_type: calls(TypesEqual) >= 1 && !lastResult(TypesEqual) ==> calls(adjustConversion) == 1 && lastArg(adjustConversion, 0) != nil && lastArg(adjustConversion, 0).Type == targetType && lastArg(adjustConversion, 0).Expression == expression && result == lastResult(adjustConversion)
+//@   ensures the_types_are_always_compared: calls(TypesEqual) == 1
 //@ observe-args dsl.insertConversion
 //@ func adjustConversion
 //@   property C19
